@@ -41,6 +41,9 @@ def fixtures():
     import ECAgent.Environments as envs
     if _K is None:
         _K = [type(f'Q{i}', (core.Component,), {'__slots__': ()}) for i in range(3)]
+        # a container-like component (an empty inventory has len 0) and a switch that is off: falsy objects are components too
+        _K[1] = type('Q1Inventory', (core.Component,), {'__slots__': (), '__len__': lambda self: 0})
+        _K[2] = type('Q2Switch', (core.Component,), {'__slots__': (), '__bool__': lambda self: False})
         _K[0] = type('Q0derived', (_K[1],), {'__slots__': ()})     # a user component class derived from another one (attached first)
         from vlib import contracts
         contracts.attach_environment(core)
